@@ -198,7 +198,17 @@ class _VersionGlobMatch(GenericEquality, restriction.base):
         return f"<{self.__class__.__name__} {self} @#x>"
 
     def __hash__(self):
-        return hash((self.ver, self.rev))
+        # must agree with __eq__: revisions compare as integers (None, "" and
+        # "0" are all revision 0, "1" and "01" are the same revision)
+        rev = self.rev
+        if not rev:
+            rev = 0
+        else:
+            try:
+                rev = int(rev)
+            except ValueError:
+                pass
+        return hash((self.ver, rev))
 
 
 class VersionGlobMatch(packages.PackageRestriction):
